@@ -11,6 +11,9 @@ import Bng.Proof.PppoeMonitor
     * `no_residue_without_sweep` with no idle sweep in the history, exactly the sessions that hold an address
       account for the allocated addresses: every termination path (PADT, LCP Terminate, failed PAP) gave the
       address back (C16);
+    * `address_is_pool_entry`, `sessions_hold_distinct_addresses`, `held_address_not_free`  (C01) what a session shows
+      as its address is the pool's entry for it, no two live sessions hold one address, and a held address is
+      never also free;
     * `allocated_accounted`      in general the difference is exactly the number of addressed sessions removed
       by idle sweeps (KF-pppoe-idle-leak, the only leak).
 -/
@@ -47,11 +50,45 @@ theorem no_residue_without_sweep (radius : Bool) (bits : Nat) (ins : List In) (h
   rw [stranded_without_sweep _ _ _ h] at this
   exact this
 
-/-- a session that holds an address is recorded in the pool under its own key, and the other way round -/
-theorem address_iff_pool_entry (radius : Bool) (bits : Nat) (ins : List In) (sid : Nat) (x : Sess)
+/-- the address a session shows is exactly what the pool records under the session's own key -/
+theorem address_is_pool_entry (radius : Bool) (bits : Nat) (ins : List In) (sid : Nat) (x : Sess)
     (hx : AMap.lookup (run (init radius bits) ins).sessions sid = some x) :
-    x.ip.isSome = (AMap.lookup (run (init radius bits) ins).alloc x.serial).isSome :=
+    x.ip = AMap.lookup (run (init radius bits) ins).alloc x.serial :=
   (run_ok (W_init radius bits) (Rel_init radius bits) ins).1.ipa sid x hx
+
+/-- (C01) no two live sessions hold the same address, after every history -/
+theorem sessions_hold_distinct_addresses (radius : Bool) (bits : Nat) (ins : List In) (sid sid' a : Nat) (x x' : Sess)
+    (hx : AMap.lookup (run (init radius bits) ins).sessions sid = some x)
+    (hx' : AMap.lookup (run (init radius bits) ins).sessions sid' = some x')
+    (ha : x.ip = some a) (ha' : x'.ip = some a) : sid = sid' := by
+  have hW := (run_ok (W_init radius bits) (Rel_init radius bits) ins).1
+  generalize run (init radius bits) ins = s at *
+  have h1 := hW.ipa sid x hx
+  have h2 := hW.ipa sid' x' hx'
+  rw [ha] at h1; rw [ha'] at h2
+  -- the two pool entries carry the same address: the pool's addresses are pairwise distinct, so it is one entry
+  have hv : (AMap.vals s.alloc).Nodup := (List.nodup_append.mp hW.pnd).2.1
+  have m1 := AMap.mem_of_lookup h1.symm
+  have m2 := AMap.mem_of_lookup h2.symm
+  have hk : x.serial = x'.serial := by
+    have := inj_of_nodup_map (fun (p : Nat × Nat) => p.2) hv m1 m2 rfl
+    exact congrArg Prod.fst this
+  exact hW.inj sid sid' x x' hx hx' hk
+
+/-- (C01/C05) an address a session holds is not at the same time on the pool's free list -/
+theorem held_address_not_free (radius : Bool) (bits : Nat) (ins : List In) (sid a : Nat) (x : Sess)
+    (hx : AMap.lookup (run (init radius bits) ins).sessions sid = some x) (ha : x.ip = some a) :
+    a ∉ (run (init radius bits) ins).avail := by
+  have hW := (run_ok (W_init radius bits) (Rel_init radius bits) ins).1
+  generalize run (init radius bits) ins = s at *
+  have h1 := hW.ipa sid x hx
+  rw [ha] at h1
+  have m1 : a ∈ AMap.vals s.alloc := by
+    have := AMap.mem_of_lookup h1.symm
+    simp only [AMap.vals, List.mem_map]
+    exact ⟨_, this, rfl⟩
+  intro hmem
+  exact (List.nodup_append.mp hW.pnd).2.2 a hmem a m1 rfl
 
 /-! non-vacuity: the monitor does speak — on the sweep — and is silent on an ordinary history -/
 example : (runBoth (init true 30) (initMon true 30)
